@@ -391,6 +391,17 @@ fn spawn_worker(exe: &Path, pid: &str, ops: &Path, start: usize, end: usize, fil
 }
 
 /// Execute all lines of `ops` with worker processes; returns per-line (out, fails).
+/// the per-case time limit is stretched when the machine is oversubscribed (several checks running side by
+/// side): 1-minute load average over the number of CPUs, rounded up, at least 1
+fn load_factor() -> u32 {
+    let load = fs::read_to_string("/proc/loadavg")
+        .ok()
+        .and_then(|t| t.split(' ').next().and_then(|x| x.parse::<f64>().ok()))
+        .unwrap_or(0.0);
+    let cpus = std::thread::available_parallelism().map(|n| n.get()).unwrap_or(1) as f64;
+    (load / cpus).ceil().max(1.0) as u32
+}
+
 pub fn supervise(prop: &dyn Prop, ops: &Path, nlines: usize, dir: &Path) -> Vec<(String, Vec<(String, String)>)> {
     let exe = std::env::current_exe().unwrap();
     // a history of k ops gets k times the per-case time limit
@@ -487,7 +498,7 @@ pub fn supervise(prop: &dyn Prop, ops: &Path, nlines: usize, dir: &Path) -> Vec<
                 let _ = st;
                 restart_reason = Some("abort");
             } else if s.cur.is_some()
-                && s.cur_since.elapsed() > timeout * mults.get(s.cur.unwrap_or(0)).copied().unwrap_or(1)
+                && s.cur_since.elapsed() > timeout * mults.get(s.cur.unwrap_or(0)).copied().unwrap_or(1) * load_factor()
             {
                 let _ = s.child.kill();
                 let _ = s.child.wait();
